@@ -21,7 +21,8 @@ SAFE_METHODS = {'get', 'startswith', 'endswith', 'lower', 'upper', 'strip', 'ite
 SAFE_RECEIVERS = (str, dict, tuple, list, frozenset)
 SAFE_BUILTINS = {'len': len, 'bool': bool, 'tuple': tuple, 'list': list, 'min': min, 'max': max, 'abs': abs, 'int': int,
                  'isinstance': isinstance, 'str': str, 'ord': ord, 'chr': chr, 'range': range, 'dict': dict,
-                 'enumerate': enumerate, 'zip': zip, 'set': set, 'frozenset': frozenset, 'sorted': sorted}
+                 'enumerate': enumerate, 'zip': zip, 'set': set, 'frozenset': frozenset, 'sorted': sorted, 'iter': iter, 'next': next,
+                 'reversed': reversed, 'sum': sum, 'divmod': divmod, 'float': float, 'repr': repr, 'map': map, 'filter': filter}
 CATCHABLE = {'KeyError': KeyError, 'IndexError': IndexError, 'ValueError': ValueError, 'TypeError': TypeError,
              'AttributeError': AttributeError, 'Exception': Exception}
 
